@@ -257,6 +257,9 @@ func (d *clientStreamDownloader) downloadPreloadHint(
 	if preloadHint.ByteRangeLength != nil {
 		req.Header.Add("Range", "bytes="+strconv.FormatUint(preloadHint.ByteRangeStart, 10)+
 			"-"+strconv.FormatUint(preloadHint.ByteRangeStart+*preloadHint.ByteRangeLength-1, 10))
+	} else if preloadHint.ByteRangeStart != 0 {
+		// without BYTERANGE-LENGTH, the hinted range ends at the end of the resource
+		req.Header.Add("Range", "bytes="+strconv.FormatUint(preloadHint.ByteRangeStart, 10)+"-")
 	}
 
 	d.onRequest(req)
